@@ -678,7 +678,13 @@ class ODataParser(Parser):
         """
         exploded = self._explode_attr(attr)
         leaf_attr = exploded.pop()
-        owner: Union[ast.Identifier, ast.Attribute] = ast.Identifier(exploded.pop(0))
+        # The root of the path keeps its namespace, like it does for a two-segment path:
+        root_namespace = (
+            attr.owner.namespace if isinstance(attr.owner, ast.Identifier) else ()
+        )
+        owner: Union[ast.Identifier, ast.Attribute] = ast.Identifier(
+            exploded.pop(0), root_namespace
+        )
         for inter in exploded:
             owner = ast.Attribute(owner, inter)
 
